@@ -482,7 +482,52 @@ func TestC19(t *testing.T) {
 			note(st, id)
 			time.Sleep(200 * time.Microsecond)
 		})
-		wg.Wait()
+		// the senders finish; if they do not, the goroutine dump decides (senders parked inside the library, in the
+		// same place at two instants, while nothing they wait for can come: a deadlock between Sends and the
+		// control calls)
+		sendersDone := make(chan struct{})
+		go func() { wg.Wait(); close(sendersDone) }()
+		select {
+		case <-sendersDone:
+		case <-time.After(90 * time.Second):
+			parkedAt := func() map[string]string {
+				m := map[string]string{}
+				for _, g := range rt.Goroutines() {
+					if g.Has("TestC19.func") && g.Has("hashicorp/eventlogger") && g.Parked() {
+						for _, fr := range g.Frames {
+							if strings.Contains(fr, "hashicorp/eventlogger") {
+								m[g.ID] = g.State + "@" + fr[strings.LastIndex(fr, "/")+1:]
+								break
+							}
+						}
+					}
+				}
+				return m
+			}
+			a := parkedAt()
+			time.Sleep(2 * time.Second)
+			bst := parkedAt()
+			same := 0
+			var where []string
+			for id, st := range a {
+				if bst[id] == st {
+					same++
+					where = append(where, st)
+				}
+			}
+			select {
+			case <-sendersDone:
+				run.Inconclusive("the senders of a composition needed more than 90 s")
+			default:
+				if same > 0 {
+					run.Violation("deadlock:senders", fmt.Sprintf("%d sender goroutine(s) are parked inside the library for good (%v) while Reopen / Rotate / threshold calls run next to them", same, where), map[string]any{"composition": c.desc})
+				} else {
+					run.Inconclusive("the senders of a composition did not finish within 90 s and are not provably parked")
+				}
+				atomic.StoreInt32(&stop, 1)
+				return
+			}
+		}
 		atomic.StoreInt32(&stop, 1)
 		cwg.Wait()
 		// flush what the gated filter still holds, then stop the consumers
